@@ -378,6 +378,12 @@ def run(ctx):
         tree = chain.Tree(rng, keys)                      # rooted at the real genesis, which the store always holds
         share = (si % 3 == 2)                             # scenario class: one pending transaction in competing fork blocks
         n = rng.randrange(5, ctx.scale(12, 20))
+        if si % 2 == 1:
+            # every other history was written while the node's clock ran ahead of the clock at the restart (a fast clock later
+            # corrected, a restored machine): its blocks carry timestamps that lie in the future when the store is read back
+            import time as _time
+            tree.extend(dt=int(_time.time()) - tree.blocks[0].timestamp + 400 * 86400 + rng.randrange(0, 10 ** 6))
+            res.count("histories_with_timestamps_ahead_of_the_restart_clock")
         for k in range(n):
             if share and k >= 2 and rng.random() < 0.5 and len(tree.blocks) > 2:
                 parent = rng.choice(tree.blocks[-4:-1]).hash()
